@@ -17,6 +17,8 @@ inductive Ev where
   | bcast (site : Nat)
   /-- the produce call of `id` returned to its caller -/
   | returned (id : Id)
+  /-- a Flush / AbortBufferedRecords call returned to its caller -/
+  | flushReturned
   | quiesce
 deriving DecidableEq, Repr
 
@@ -26,6 +28,10 @@ structure St where
   /-- an obligation raised by the `unblocked` event of this record; withdrawn if the record is admitted in the
   same critical section (then nothing observable changed), due at the latest when its produce call returns -/
   tentative : Option Id := none
+  /-- a release reported "nothing buffered or blocked" while a Flush was in progress. The number of flushers is an
+  atomic counter that the hook reads after the code took its decision, and a flusher that had not parked yet
+  re-checks its predicate under the mutex, so this obligation is covered by a Broadcast *or* by a flusher returning. -/
+  flushNeed : Bool := false
 deriving Repr, DecidableEq
 
 /-- does this change make the predicate of some parked waiter true?  blocked producers wait for space,
@@ -42,17 +48,23 @@ def check (s : St) : Ev → Option String
     -- a produce call that stopped blocking without being admitted (cancelled) and thereby made a flusher's
     -- predicate true must have broadcast before it returns
     if s.tentative == some id then some "C03.cancelled-produce-returned-without-broadcast" else none
-  | .quiesce => if s.need > 0 then some "C03.wakeup-never-broadcast" else none
+  | .flushReturned => none
+  | .quiesce =>
+    if s.need > 0 then some "C03.wakeup-never-broadcast"
+    else if s.flushNeed then some "C03.flush-wakeup-never-broadcast" else none
 
 def apply (s : St) : Ev → St
   | .unblocked id blocked buffered flushing =>
-    if wakeNeeded buffered blocked flushing false then { need := s.need + 1, tentative := some id } else { s with tentative := none }
+    if wakeNeeded buffered blocked flushing false then { s with need := s.need + 1, tentative := some id } else { s with tentative := none }
   | .admitted id =>
-    if s.tentative == some id then { need := s.need - 1, tentative := none } else s
+    if s.tentative == some id then { s with need := s.need - 1, tentative := none } else s
   | .released _ buffered blocked flushing =>
-    if wakeNeeded buffered blocked flushing true then { s with need := s.need + 1 } else s
-  | .bcast _ => { need := 0, tentative := none }
+    -- the number of blocked producers is exact (it only changes under the producer mutex)
+    let s := if blocked > 0 then { s with need := s.need + 1 } else s
+    if buffered + blocked = 0 && decide (flushing > 0) then { s with flushNeed := true } else s
+  | .bcast _ => { need := 0, tentative := none, flushNeed := false }
   | .returned id => if s.tentative == some id then { s with tentative := none } else s
+  | .flushReturned => { s with flushNeed := false }
   | .quiesce => s
 
 def step (s : St) (e : Ev) : Option St := match check s e with | none => some (apply s e) | some _ => none
